@@ -51,11 +51,11 @@ func TestC05Controlled(t *testing.T) {
 	p := baseProfile
 	p.wEvents = 3
 	p.maxOps = 25
-	p.wDone = 1
+	p.wDone = 2
 	p.minWatch = 2
 	vrt.Check(t, vrt.Prop[Scenario]{
 		ID: "C05", Name: "controlled",
-		Rule: "histories of 1..25 operations (value reports from 2..3 fake watching sources, blocking or not, views, Events reads, registrations, EnableVerification, watchers that finish with Done while others keep reporting) against a real Dials inside a testing/synctest bubble, quiescence (synctest.Wait) after every step; " +
+		Rule: "histories of 1..25 operations (value reports from 2..3 fake watching sources, blocking or not, views, Events reads, registrations, EnableVerification, watchers that finish with Done - also twice - while others keep reporting) against a real Dials inside a testing/synctest bubble, quiescence (synctest.Wait) after every step; " +
 			"oracle: after every step the view deep-equals the pure reference stack of the defaults and each source's latest reported value (or the last version that verified), every installed version's serial is its predecessor's + 1 (sampled at the store by a schedule point), View and ViewVersion agree, Events delivers exactly the model's pending version; " +
 			"non-trivial = >=3 installs from >=2 sources; distinct = distinct scenario JSON",
 		Assumptions: []string{"sources report values of the pointerified type they were given", "the harness observes stores through the verif-tagged schedule point mon.stored"},
